@@ -149,12 +149,12 @@ def is_registration_idiom(site):
     if isinstance(v, ast.Name) and any(isinstance(st, ast.AugAssign) and isinstance(st.target, ast.Name) and
                                         st.target.id == v.id and isinstance(st.op, ast.Add) and
                                         isinstance(st.value, ast.Constant) and st.value.value == 1
-                                        for st in site.guard.body):
+                                        for st in site.guarded):
         return True
     if not (isinstance(v, ast.Call) and isinstance(v.func, ast.Name) and v.func.id == 'len' and len(v.args) == 1):
         return False
     lst = norm(v.args[0])
-    body = site.guard.body
+    body = site.guarded
     for st in body:
         if isinstance(st, ast.Expr) and isinstance(st.value, ast.Call) and \
            isinstance(st.value.func, ast.Attribute) and st.value.func.attr == 'append' and \
